@@ -281,6 +281,9 @@ class AsyncClient(base_client.BaseClient):
         await self._trigger_event('connect', run_async=False)
 
         for pkt in p.packets[1:]:
+            if self.state != 'connected':
+                # disconnected by the connect handler or an earlier packet
+                break
             await self._receive_packet(pkt)
 
         if self.state == 'connected' and 'websocket' in self.upgrades and \
@@ -566,6 +569,10 @@ class AsyncClient(base_client.BaseClient):
                 await self.queue.put(None)
                 break
             for pkt in p.packets:
+                if self.state != 'connected':
+                    # disconnected while the request was in flight, or by
+                    # an earlier packet of this payload
+                    break
                 await self._receive_packet(pkt)
 
         if self.write_loop_task:  # pragma: no branch
